@@ -50,6 +50,11 @@ type Ctx struct {
 	occ   map[string]int
 	sites []string
 
+	// EventBudget bounds the number of logged events of one run; exceeding it aborts the run
+	// (unbounded recursion or looping inside the container shows up as event growth).
+	EventBudget int
+	OverBudget  bool
+
 	// DupSite is set if two tasks were parked under the same site key (a harness bug: the
 	// release order would not be a function of the picks).
 	DupSite string
@@ -63,11 +68,14 @@ type Ctx struct {
 }
 
 func NewCtx(ch *Chooser) *Ctx {
-	return &Ctx{Ch: ch, Budget: 200000, Armed: map[string]bool{}, fired: map[string]int{}, occ: map[string]int{}}
+	return &Ctx{Ch: ch, Budget: 200000, EventBudget: 400000, Armed: map[string]bool{}, fired: map[string]int{}, occ: map[string]int{}}
 }
 
 // ErrInjected is the error returned by an armed fault site.
 var ErrInjected = errors.New("verif: injected fault")
+
+// ErrBudget is the panic value that aborts a run whose event log exceeded its budget.
+var ErrBudget = errors.New("verif: event budget of the run exceeded (non-termination)")
 
 // Log appends an event (serial mode only).
 func (c *Ctx) Log(kind, subj, detail string) int {
@@ -78,7 +86,14 @@ func (c *Ctx) Log(kind, subj, detail string) int {
 	c.seq++
 	s := c.seq
 	c.events = append(c.events, Event{Seq: s, Kind: kind, Subj: subj, Detail: detail})
+	over := c.EventBudget > 0 && s > c.EventBudget && !c.OverBudget
+	if over {
+		c.OverBudget = true
+	}
 	c.mu.Unlock()
+	if over {
+		panic(ErrBudget)
+	}
 	return s
 }
 
